@@ -67,7 +67,7 @@ EXTRA_EXT_TYPES = [0xFF01, 0x0017, 0x0010, 0x0023, 0x0000, 0x000F, 0x000B, 0x777
 
 
 @st.composite
-def tls_conn(draw, combos=None, max_records=12, max_len=2000, delivery=None, ep=None, bytes_mode_limit=2500, shapes=True):
+def tls_conn(draw, combos=None, max_records=12, max_len=2000, delivery=None, ep=None, bytes_mode_limit=2500, shapes=True, close=True):
     suites = tlsref.load_suites()
     combos = combos or tlsref.all_combos()
     # version first (uniform), then a suite valid for it: the table has 5 TLS 1.3 entries among ~700 combinations
@@ -110,6 +110,10 @@ def tls_conn(draw, combos=None, max_records=12, max_len=2000, delivery=None, ep=
     spec["history"] = hist
     spec["ep"] = draw(ep if ep is not None else endpoints())
     t = draw(delivery if delivery is not None else tcp_delivery())
+    if close and not t.get("moves"):
+        # most real connections end with close_notify alerts; they come after all application data (data after an alert is not claimed),
+        # so they are only generated when no segment is displaced across them
+        spec["close"] = draw(st.sampled_from([0, 0, 1, 2, 3, 3]))
     total = sum(ln for _, ln, _ in hist) + spec.get("cert_len", 300) + 400          # every byte of the stream becomes a packet
     if t["mode"] == "bytes" and total > bytes_mode_limit:
         t["mode"] = "cuts"
